@@ -144,6 +144,9 @@ pub fn judge_session(rep: &LoopReport) -> Judged {
                 if legal > 128 {
                     j.probes.add("go_on_position_with_more_than_128_legal_moves", 1);
                 }
+                if x.line.contains("searchmoves") {
+                    j.probes.add("go_with_searchmoves", 1);
+                }
                 {
                     let t: Vec<&str> = x.line.split_whitespace().collect();
                     if t.len() == 3 && t[1] == "depth" && t[2].parse::<u32>().map(|d| d >= 5).unwrap_or(false) {
@@ -202,6 +205,22 @@ pub fn judge_session(rep: &LoopReport) -> Judged {
 /// go parameters for one move, sized so that a clock-limited search stays below
 /// ~50 000 nodes under this sim's cost model.
 fn gen_go(rng: &mut Rng, pos: &Pos, cost_node_ns: u64, explosive: bool) -> String {
+    let g = gen_go_plain(rng, pos, cost_node_ns, explosive);
+    // one go in eight restricts the search to a few moves (often a single one): an engine
+    // that knows `searchmoves` must forget the list with the search, one that does not
+    // ignores it
+    if rng.chance(1, 8) {
+        let mut ms = gen::moves_uci(&pos.legal_moves());
+        if !ms.is_empty() {
+            rng.shuffle(&mut ms);
+            let k = (if rng.chance(1, 2) { 1 } else { rng.range(2, 3) as usize }).min(ms.len());
+            return format!("{} searchmoves {}", g, ms[..k].join(" "));
+        }
+    }
+    g
+}
+
+fn gen_go_plain(rng: &mut Rng, pos: &Pos, cost_node_ns: u64, explosive: bool) -> String {
     let unit_ms = (cost_node_ns.max(1) * 50_000 / 1_000_000).max(1);
     let kind = if explosive { rng.range(3, 9) } else { rng.below(10) };
     match kind {
